@@ -199,19 +199,20 @@ _cache: dict[str, list[Template]] = {}
 
 
 def reader_templates(repo: Repo) -> list[Template]:
-    d = repo.digest()
-    if d not in _cache:
-        _cache[d] = harvest(generator_functions(repo))
-    return _cache[d]
+    cached = getattr(repo, "_reader_templates", None)
+    if cached is None:
+        cached = harvest(generator_functions(repo))
+        repo._reader_templates = cached
+    return cached
 
 
 def reader_skeleton(repo: Repo) -> tuple[ast.FunctionDef, list[Template]]:
     """``def _read(cls, stream, context=None): <preamble> <every statement template> <outro>`` as one function."""
     tpls = reader_templates(repo)
     gs = repo.func("compiler.py", "_ReadSourceGenerator.generate_source")
-    pre = [t for t in tpls if t.func is gs and t.role in ("assign:preamble", "augassign:preamble") and t.tree]
-    outro = [t for t in tpls if t.func is gs and t.role == "assign:outro" and t.tree]
-    sig = [t for t in tpls if t.func is gs and t.role == "return" and t.text.lstrip().startswith("def ")]
+    pre = [t for t in tpls if t.func.key == gs.key and t.role in ("assign:preamble", "augassign:preamble") and t.tree]
+    outro = [t for t in tpls if t.func.key == gs.key and t.role == "assign:outro" and t.tree]
+    sig = [t for t in tpls if t.func.key == gs.key and t.role == "return" and t.text.lstrip().startswith("def ")]
     if not pre or not outro or not sig:
         raise AnalysisError("compiler.py: preamble / outro / signature template of generate_source not found")
     sig_tree = ast.parse(textwrap.dedent(re.sub(PH + r"\w+" + PH + r"\s*$", "    pass", sig[0].text.strip())))
@@ -233,7 +234,7 @@ def reader_skeleton(repo: Repo) -> tuple[ast.FunctionDef, list[Template]]:
         for st in t.tree.body:
             if isinstance(st, ast.Expr) and isinstance(st.value, ast.Name) and st.value.id in t.holes and isinstance(t.holes[st.value.id], ast.Name):
                 hole_name = t.holes[st.value.id].id
-                alts = [u for u in tpls if u.func is t.func and u.role == f"assign:{hole_name}" and u.tree is not None and u.kind == "stmt"]
+                alts = [u for u in tpls if u.func.key == t.func.key and u.role == f"assign:{hole_name}" and u.tree is not None and u.kind == "stmt"]
                 for u in alts:
                     new_body += u.tree.body
                     inlined.add(id(u))
@@ -242,7 +243,7 @@ def reader_skeleton(repo: Repo) -> tuple[ast.FunctionDef, list[Template]]:
             new_body.append(st)
         expanded[id(t)] = new_body
     for t in tpls:
-        if t.func is gs or t.tree is None or t.kind != "stmt" or id(t) in inlined:
+        if t.func.key == gs.key or t.tree is None or t.kind != "stmt" or id(t) in inlined:
             continue
         body += expanded[id(t)]
         used.append(t)
